@@ -342,7 +342,12 @@ def make_inputs(ctx, quick):
     cdir = os.path.join(vf.ROOT, "corpus", "C01")
     if os.path.isdir(cdir):
         for f in sorted(os.listdir(cdir)):
-            inputs.append((os.path.join(cdir, f), cdir + "/", "regression", f))
+            q = os.path.join(cdir, f)
+            if os.path.isdir(q):        # a multi-file case: every file of the directory is run with the directory as base
+                for g in sorted(os.listdir(q)):
+                    inputs.append((os.path.join(q, g), q + "/", "regression", f + "/" + g))
+            else:
+                inputs.append((q, cdir + "/", "regression", f))
     # deterministic sweeps over valid base models: vocabulary of every table, near-miss numbers, size stress
     tables = ds.read_tables(vf.REPO)
     sweeps = ds.vocabulary_sweep(tables) + ds.nearmiss_sweep() + ds.stress_sweep() + ds.xmlfeature_sweep()
@@ -428,6 +433,42 @@ def import_capture_cycle(main_models, lib_models):
                         if r in graph and r not in seen:
                             seen.add(r)
                             todo.append(r)
+    return False
+
+
+def import_name_reuse(main_models, lib_models):
+    """an imported units has local name N and reference R (N != R), and the imported file ALSO defines a units named N whose
+    references lead to R"""
+    for m in main_models:
+        for u in m.get("units", []):
+            if not u.get("import") or not u.get("importref") or u["importref"] == u["name"]:
+                continue
+            for lib in lib_models:
+                graph = {}
+                for v in lib.get("units", []):
+                    graph.setdefault(v["name"], v["refs"])
+                if u["name"] not in graph or u["importref"] not in graph:
+                    continue
+                seen, todo = set(), [u["name"]]
+                while todo:
+                    n = todo.pop()
+                    for r in graph.get(n, []):
+                        if r == u["importref"]:
+                            return True
+                        if r in graph and r not in seen:
+                            seen.add(r)
+                            todo.append(r)
+    return False
+
+
+def shared_units_names(models):
+    """the same units name is defined in two different models of the import closure"""
+    seen = {}
+    for k, m in enumerate(models):
+        for u in m.get("units", []):
+            if u["name"] in seen and seen[u["name"]] != k:
+                return True
+            seen.setdefault(u["name"], k)
     return False
 
 
@@ -553,6 +594,21 @@ def classify(mode, d, bang, stage, models, verdicts, plain=False, path=None):
             return "C01-Kentity-reference", "Parser::parseModel dies (%s): a declared entity is referenced in element content" % top
     mine = [m for m in models if m["label"].startswith(mode)] or models
     ana, pw = verdicts.get(mode, (set(), set()))
+    mains = [m for m in mine if not m["label"].endswith("lib")]
+    libs = [m for m in models if m["label"].endswith("lib")]
+    has = bang.get("has", "")
+    # (a) a units cycle INSIDE an imported file: the importer's own recursion (checkUnitsForCycles / fetchUnits) has no guard
+    if stage in ("F", "I") and v.startswith("CRASH") and kind == "stack-overflow" and ("checkUnitsForCycles" in has or "fetchUnits" in has) \
+            and units_cycle(libs):
+        return "C01-K3-importer-recursion-unguarded", "stage %s: stack exhaustion in the importer (%s): a units cycle inside an imported file" % (stage, has)
+    # (b) flattening renames: an imported units (name N := reference R) while the imported file has its own units N whose
+    #     definition leads to R -- transferUnitsRenamingIfRequired / clone recurse for ever
+    if stage == "F" and v.startswith("CRASH") and kind == "stack-overflow" and import_name_reuse(mains, libs):
+        return "C01-K3-transfer-recursion", "flattenModel exhausts the stack (%s): the local name of an imported units is also a units of the imported file that refers to the imported one" % (has or top)
+    # (c) name capture brings an imported units without model into the flattened model
+    if stage == "F" and v.startswith("CRASH") and kind.startswith(NULL_KINDS) and "flattenUnitsImports" in has + frames \
+            and any(u.get("import") for m in libs for u in m.get("units", [])) and shared_units_names(mains + libs):
+        return "C01-Kflatten-captured-import-without-model", "flattenModel dereferences the missing model of a units import carried over by a name capture (%s)" % top
     # K3: a recursive unit reducer on a cyclic units graph -> stack exhaustion
     if ((v.startswith("CRASH") and kind == "stack-overflow") or v.startswith("TIMEOUT")) and stage in K3_STAGES and units_cycle(mine):
         return "C01-K3-units-cycle", "stage %s: %s on a cyclic units graph" % (
